@@ -23,6 +23,6 @@ git checkout -q -- .
 echo "== checks on /repo with the change"
 [ -z "$(git -C /repo status --porcelain)" ] || { echo "REFUSING: /repo has uncommitted changes"; exit 2; }
 git -C /repo apply "$DIFF" || { echo "APPLY to /repo FAILED (contract files?)"; exit 2; }
-for p in $PROPS; do (cd /verif && ./check $p quick 2>&1 | grep -E "^(VIOLATION|property=)" | cut -c1-260); done
+for p in $PROPS; do (cd /verif && GOCV_OUT=/tmp/w/seedcheck-out ./check $p quick 2>&1 | grep -E "^(VIOLATION|property=)" | cut -c1-260); done
 git -C /repo checkout -- .
 git -C /repo status --short | head -3
